@@ -226,3 +226,78 @@ def run(ctx):
                     flat_make=lambda: _CAPA(min_segment_length=2, collective_penalty_scale=1e6, point_penalty_scale=1e6))
     variants_stream(ctx, "MVCAPA", lambda: _MVCAPA(min_segment_length=2, max_segment_length=30), ctx.n(3, 16),
                     flat_make=lambda: _MVCAPA(min_segment_length=2, collective_penalty_scale=1e6, point_penalty_scale=1e6))
+    float_optimality_stream(ctx)
+
+
+def float_optimality_stream(ctx):
+    """The property itself on REAL float savings: CAPA / MVCAPA with the built-in L2 saving on float data; the per-column savings of every admissible interval are taken
+    from a fresh scorer, the optimum over all valid anomaly sets is recomputed in EXACT rational arithmetic (floats are rationals: no rounding in the reference) with the
+    true best-subset penalised saving, and the implementation's final score and the re-evaluated total of its reported anomalies must equal it up to rounding."""
+    from fractions import Fraction
+    from skchange.anomaly_detectors import CAPA as _CAPA, MVCAPA as _MVCAPA
+    from skchange.anomaly_scores import L2Saving as _L2S
+    rng = ctx.rng
+
+    def pbest(sav, alpha, betas):
+        order = sorted(sav, reverse=True)
+        best, run = None, -alpha
+        for k, v in enumerate(order):
+            run += v - betas[k]
+            best = run if best is None or run > best else best
+        return best
+
+    for it in range(ctx.n(14, 100)):
+        n = rng.randint(8, 26)
+        p = rng.choice([1, 2, 3])
+        m = rng.choice([2, 3])
+        M = rng.choice([m + 2, 8, n])
+        X = np.asarray([[rng.gauss(0, 1) for _ in range(p)] for _ in range(n)])
+        a = rng.randint(1, n - m - 1)
+        X[a:a + rng.randint(m, min(M, n - a)), : rng.randint(1, p)] += rng.choice([3.0, -4.0])
+        X[rng.randrange(n), rng.randrange(p)] += rng.choice([7.0, -9.0])
+        multi = it % 2 == 1
+        ac, ap = float(rng.choice([1.5, 4.25, 9.0])), float(rng.choice([2.5, 6.0, 12.75]))
+        betas = [float(rng.choice([0.0, 0.5, 1.25, 3.0])) for _ in range(p)] if multi else [0.0] * p
+        try:
+            if multi:
+                d = _MVCAPA(min_segment_length=m, max_segment_length=M, collective_penalty=pen_callable(ac, betas), point_penalty=pen_callable(ap, betas)).fit(X)
+            else:
+                d = _CAPA(min_segment_length=m, max_segment_length=M).fit(X)
+                d.collective_penalty_, d.point_penalty_ = ac, ap
+            y = d.predict(X)
+            scores = d.transform_scores(X).to_numpy().reshape(-1)
+        except Exception as ex:
+            ctx.violation(f"{'MVCAPA' if multi else 'CAPA'} raised {type(ex).__name__}: {str(ex)[:100]} on float data", {"X": X.tolist(), "m": m, "M": M},
+                          {"what": "exception", "detector": "float-optimality"})
+            continue
+        sc = _L2S().fit(X)
+        cuts = [(s, e) for s in range(n) for e in range(s + 1, n + 1) if e - s == 1 or m <= e - s <= M]
+        vals = sc.evaluate(np.asarray(cuts))
+        sav = {c: [Fraction(float(v)) for v in row] for c, row in zip(cuts, vals)}
+        fa, fp, fb = Fraction(ac), Fraction(ap), [Fraction(b) for b in betas]
+        PC = lambda s, e: pbest(sav[(s, e)], fa, fb)
+        PP = lambda t: pbest(sav[(t, t + 1)], fp, fb)
+        G = [Fraction(0)] * (n + 1)
+        for t in range(1, n + 1):
+            best = max(G[t - 1], G[t - 1] + PP(t - 1))
+            for s in range(max(0, t - M), t - m + 1):
+                best = max(best, G[s] + PC(s, t))
+            G[t] = best
+        iv = [(int(l), int(r)) for l, r in zip(y["ilocs"].array.left, y["ilocs"].array.right)]
+        ok_shape = all((r - l == 1) or (m <= r - l <= M) for l, r in iv) and all(b_[0] >= a_[1] for a_, b_ in zip(iv, iv[1:])) and all(0 <= l < r <= n for l, r in iv)
+        total = sum((PP(l) if r - l == 1 else PC(l, r)) for l, r in iv) if ok_shape else None
+        scale = float(sum(abs(x) for row in sav.values() for x in row)) / max(1, len(sav)) * n + 1.0
+        inp = {"detector": "MVCAPA" if multi else "CAPA", "X": X.tolist(), "min_segment_length": m, "max_segment_length": M, "alpha_collective": ac, "alpha_point": ap,
+               "betas": betas, "anomalies": [list(t) for t in iv], "final_score": float(scores[-1]), "exact_optimum": float(G[n])}
+        ctx.case({"floatopt": it, "n": n, "p": p, "x0": float(X[0, 0])}, nontrivial=len(iv) > 0)
+        ctx.count("float_optimality", inp["detector"])
+        if not ok_shape:
+            ctx.violation(f"{inp['detector']} on float data: the reported anomalies {iv} are not sorted disjoint intervals of admissible length", inp,
+                          {"what": "float-optimality-shape", "detector": inp["detector"]})
+        elif abs(float(total) - float(G[n])) > 1e-9 * scale or abs(float(scores[-1]) - float(G[n])) > 1e-9 * scale:
+            ctx.violation(f"{inp['detector']} on float data (n={n}, p={p}, m={m}, M={M}): final score {float(scores[-1])!r}, re-evaluated total of the reported anomalies "
+                          f"{float(total)!r}, optimum over all valid anomaly sets (exact arithmetic on the scorer's savings) {float(G[n])!r}", inp,
+                          {"what": "float-optimality", "detector": inp["detector"]})
+        if any(abs(float(scores[t]) - float(G[t + 1])) > 1e-9 * scale for t in range(n)):
+            ctx.violation(f"{inp['detector']} on float data: a prefix score differs from the prefix optimum (exact arithmetic on the scorer's savings)", inp,
+                          {"what": "float-optimality-prefix", "detector": inp["detector"]})
